@@ -52,6 +52,8 @@ type override struct {
 	// above 0x3FFF), "full" (0x3FFF-byte chunks), "atyp-N" (address type N in a bad address), "domlen-N" (domain of N bytes),
 	// "trunc-N" (address header cut after N bytes), "slow" (the target reads 512 bytes every 2 ms)
 	Craft string `json:"craft"`
+	// the service has NO keys (key-list size 0): every opener fails authentication
+	EmptyKeys bool `json:"emptykeys"`
 }
 
 var envActs = map[string]bool{"TClose": true, "CRst": true, "Connect": true, "CSend": true, "CFin": true, "TSend": true, "TFin": true, "TRst": true, "Tick": true, "CloseListener": true}
@@ -292,6 +294,9 @@ func setupKeys(rng *rand.Rand, idx int, beh behaviour, opt options) (int, []keyI
 	replayOn := needReplay || rng.Intn(3) > 0
 	if beh.Ov != nil && beh.Ov.Replay != nil {
 		replayOn = *beh.Ov.Replay || needReplay
+	}
+	if beh.Ov != nil && beh.Ov.EmptyKeys {
+		klist = list.New() // the clients still use keys[...]; the service knows none of them
 	}
 	return nk, keys, klist, replayOn
 }
